@@ -274,8 +274,10 @@ def rand_interaction(rng):
         it["response"] = None
     else:
         enc = rng.choice(ENCODINGS)
-        if 0.2 <= fault < 0.24:
-            enc = rng.choice(["bogus", "x-unknown"])
+        if 0.2 <= fault < 0.23:
+            enc = rng.choice(["bogus", "x-unknown", "base64"])
+        elif 0.23 <= fault < 0.24:
+            enc = "undefined"
         elif 0.24 <= fault < 0.27:
             enc = rng.choice(["it's", "'"])
         it["response"] = {
@@ -381,16 +383,27 @@ def run_writer(fmt, recorders, sanitize, preserve, argv=None):
     return sink.buf.getvalue(), exc
 
 
-def codec_known(enc):
-    import codecs
-
-    if enc is None:
-        return True
+def decode_kind(enc, content=b"x"):
+    """What Python makes of this charset for this payload: 'ok' | 'unknown' (LookupError) | 'raises' (anything else)."""
     try:
-        codecs.lookup(enc)
-        return True
+        content.decode(enc or "utf8", "replace")
+        return "ok"
     except LookupError:
-        return False
+        return "unknown"
+    except Exception:  # noqa: BLE001  (undefined, idna, punycode)
+        return "raises"
+
+
+def codec_known(enc):
+    return decode_kind(enc) == "ok"
+
+
+def effective_encoding(r, preserve):
+    """The encoding vcr_writer prints for this response (after the utf8 fall-back of commit ad7dc72b)."""
+    if preserve:
+        return str(r["encoding"])
+    enc = r["encoding"] or "utf8"
+    return "utf8" if decode_kind(enc, r["content"]) == "unknown" else enc
 
 
 def expected_status(it):
@@ -406,11 +419,8 @@ def sq_sites(it, preserve):
     sites = [("uri", it["uri"]), ("method", it["method"])]
     r = it["response"]
     if r is not None:
-        if preserve:
-            if r["content"]:
-                sites.append(("encoding", str(r["encoding"])))
-        else:
-            sites.append(("encoding", r["encoding"] or "utf8"))
+        if not preserve or r["content"]:
+            sites.append(("encoding", effective_encoding(r, preserve)))
     if it["meta"] == "coverage" and it["coverage"]["parameter_location"] is None:
         pass
     return sites
@@ -449,8 +459,12 @@ def compare_vcr_entry(entry, it, preserve):
         if preserve:
             # an empty payload has no body key (Response.encoded_body is None for b"")
             want("response.body", b"" if gb is None else b64(gb["base64_string"]), r["content"])
+            if gb is not None:
+                want("response.body.encoding", gb.get("encoding"), str(r["encoding"]))
         else:
-            want("response.body", None if gb is None else gb.get("string"), r["content"].decode(r["encoding"] or "utf8", "replace"))
+            enc = effective_encoding(r, preserve)
+            want("response.body", None if gb is None else gb.get("string"), r["content"].decode(enc, "replace"))
+            want("response.body.encoding", None if gb is None else gb.get("encoding"), enc)
     checks = [] if (it["checks"] is None or r is None) else it["checks"]
     want("checks", [(c["name"], c["status"], c["message"]) for c in entry["checks"]],
          [(n, "SUCCESS" if t is None else "FAILURE", t) for n, t in checks])
@@ -474,8 +488,8 @@ def vcr_region(it, preserve, sq_ok, names_ok):
     if not all(names_ok):
         return "header_name_quote"
     r = it["response"]
-    if r is not None and not preserve and not codec_known(r["encoding"]) and r["content"]:  # b"".decode(unknown) does not look the codec up
-        return "unknown_codec"
+    if r is not None and not preserve and decode_kind(r["encoding"], r["content"]) == "raises":  # charset=undefined; b"".decode(..) never raises
+        return "codec_decode_raises"
     return None
 
 
@@ -611,8 +625,9 @@ def c_xchg(idx, it):
     r = it["response"]
     resp = None
     if r is not None:
-        resp = "{| p_status := %d; p_message := %s; p_headers := %s; p_content := %s; p_encoding := %s; p_version := %s |}" % (
-            r["status"], cstr(r["message"]), c_hdict(r["headers"]), cstr(r["content"]), copt(None if r["encoding"] is None else cstr(r["encoding"]), "str"), cstr(r["http_version"]))
+        kind = {"ok": "CodecOk", "unknown": "CodecUnknown", "raises": "CodecRaises"}[decode_kind(r["encoding"], r["content"])]
+        resp = "{| p_status := %d; p_message := %s; p_headers := %s; p_content := %s; p_encoding := %s; p_codec := %s; p_version := %s |}" % (
+            r["status"], cstr(r["message"]), c_hdict(r["headers"]), cstr(r["content"]), copt(None if r["encoding"] is None else cstr(r["encoding"]), "str"), kind, cstr(r["http_version"]))
     checks = None
     if it["checks"] is not None and r is not None:
         checks = clist([ctuple(cstr(n), cbool(title is not None)) for n, title in it["checks"]], "(str * bool)")
@@ -637,7 +652,7 @@ def pairs(v):
 def canon_model_har(e):
     post = popt(e["he_post"])
     resp = popt(e["he_resp"])
-    out = {"method": pstr(e["he_method"]), "url": pstr(e["he_url"]), "httpVersion": pstr(e["he_version"]), "headers": pairs(e["he_headers"]),
+    out = {"method": pstr(e["he_method"]), "url": pstr(e["he_url"]), "query": parse_qsl(pstr(e["he_query"]), keep_blank_values=True), "httpVersion": pstr(e["he_version"]), "headers": pairs(e["he_headers"]),
            "post": None if post is None else (pstr(post[0]), payload_text(post[1])), "bodySize": e["he_body_size"], "response": None}
     if resp is not None:
         content = popt(resp["hr_content"])
@@ -658,7 +673,7 @@ def canon_har_response(r):
 def canon_file_har(e):
     rq = e["request"]
     pd = rq.get("postData")
-    return {"method": rq["method"], "url": rq["url"], "httpVersion": rq["httpVersion"], "headers": [(h["name"], h["value"]) for h in rq["headers"]],
+    return {"method": rq["method"], "url": rq["url"], "query": [(q["name"], q["value"]) for q in rq["queryString"]], "httpVersion": rq["httpVersion"], "headers": [(h["name"], h["value"]) for h in rq["headers"]],
             "post": None if pd is None else (pd.get("mimeType"), pd.get("text")), "bodySize": rq.get("bodySize"), "response": canon_har_response(e["response"])}
 
 
@@ -709,10 +724,10 @@ def clean_interaction(rng):
         names = list(it["req_headers"]) + (list(it["response"]["headers"]) if it["response"] else [])
         if "'" in it["uri"] or "@" in it["uri"] or it["meta"] == "none" or any(ch in n for n in names for ch in '"\\'):
             continue
-        if it["response"] is not None and (not codec_known(it["response"]["encoding"]) or "'" in (it["response"]["encoding"] or "")):
+        if it["response"] is not None and (decode_kind(it["response"]["encoding"], it["response"]["content"]) == "raises" or "'" in (it["response"]["encoding"] or "")):
             continue
         if rng.random() < 0.5:
-            it["uri"] += rng.choice(["?a=1&b=&a=2", "?q=x%20y", "?token", ""])
+            it["uri"] += rng.choice(["?a=1&b=&a=2", "?q=x%20y", "?token", "", "?a=1#frag?x=2", "#f", "?a=b?c=d"])
         return it
 
 
@@ -968,15 +983,19 @@ def canon_model_run(m):
     out["failures"] = {LABELS[l]: {f"case{cid}": sorted(f"m{k}" for k in ks) for cid, ks in groups} for l, groups in s["failures"]}
     out["unique"] = sorted(f"m{k}" for k in s["unique"])
     out["test_cases"] = [LABELS[l] for l, _ in t]
-    out["written"] = None if w is None else [(LABELS[l], len(tc["t_failures"]), tc["t_skipped"], tc["t_errors"]) for l, tc in popt(w)]
+    # one failure element per add_failure call; an empty group list = the "already reported" message
+    out["written"] = None if w is None else [(LABELS[l], [len(g) == 0 for g in tc["t_failures"]], tc["t_skipped"], tc["t_errors"]) for l, tc in popt(w)]
     return out
+
+
+ALREADY_REPORTED = "The failures found in this test were already reported for another test"
 
 
 def parse_junit(xml_text):
     root = ET.fromstring(xml_text)
     out = []
     for tc in root.iter("testcase"):
-        out.append((tc.get("name"), len(tc.findall("failure")), len(tc.findall("skipped")), len(tc.findall("error"))))
+        out.append((tc.get("name"), [(f.get("message") or "").startswith(ALREADY_REPORTED) for f in tc.findall("failure")], len(tc.findall("skipped")), len(tc.findall("error"))))
     return out
 
 
@@ -985,27 +1004,29 @@ def stage_junit(chk, n):
     corpus = [json.loads(p.read_text())["history"] for p in sorted((core.VERIF / "corpus" / "C16").glob("history_*.json"))]
     hs = [[tuple(e) for e in h] for h in corpus]
     hs += [rand_history(rng) for _ in range(n)]
-    model = core.coq_eval(IMPORTS, [f"(junit_run {c_history(h)}, fresh_failure_or_known_label {c_history(h)})" for h in hs])
+    model = core.coq_eval(IMPORTS, [f"(junit_run {c_history(h)}, fresh_failure_or_known_label {c_history(h)}, junit_crashes_old {c_history(h)})" for h in hs])
     crashes = 0
-    for h, (m, m_region) in zip(hs, model):
+    rediscovered = 0
+    for h, (m, m_region, m_old_crash) in zip(hs, model):
         case = {"history": h}
         impl = run_history_impl(h)
         mod = canon_model_run(m)
-        rediscovery = any(e[0] == "scenario" and e[2] == "StFailure" for e in h)
-        chk.seen(case, rediscovery)
-        chk.count("history:" + ("crash" if impl["crash"] else "ok"))
-        if impl["crash"] != mod["crash"]:
-            chk.disagree("JunitXMLHandler KeyError vs Model_C16.junit_run", case, impl["crash"], mod["crash"])
-            continue
-        if (mod["crash"] is None) != (m_region is True):
-            chk.disagree("evaluated theorem C16_junit_crashes_iff", case, mod["crash"], m_region)
+        has_failure_event = any(e[0] == "scenario" and e[2] == "StFailure" for e in h)
+        chk.seen(case, has_failure_event)
+        chk.count("history:" + ("outside-old-region" if not m_region else "inside-old-region"))
+        # sentinel theorem C16_junit_old_handler_crashes_iff, evaluated
+        if m_old_crash is not (not m_region):
+            chk.disagree("evaluated theorem C16_junit_old_handler_crashes_iff", case, m_old_crash, m_region)
+        if mod["crash"] is not None:
+            chk.disagree("evaluated theorem C16_junit_never_crashes", case, None, mod["crash"])
         if impl["crash"] is not None:
             crashes += 1
-            chk.fail(f"JUnit handler raises KeyError({impl['crash']!r}): the run aborts", case, None, region="junit_rediscovered_failure")
+            chk.fail(f"JUnit handler raises KeyError({impl['crash']!r}): the run aborts", case, None, region=None)
             continue
+        rediscovered += not m_region
         for key in ("failures", "unique", "test_cases"):
-            if impl[key] != mod[key]:
-                chk.disagree(f"Statistic / JunitXMLHandler state ({key}) vs Model_C16", case, impl[key], mod[key])
+            if impl[key] != mod.get(key):
+                chk.disagree(f"Statistic / JunitXMLHandler state ({key}) vs Model_C16", case, impl[key], mod.get(key))
         finished = any(e[0] == "finish" for e in h)
         if finished:
             try:
@@ -1014,10 +1035,18 @@ def stage_junit(chk, n):
                 chk.fail(f"JUnit report is not XML: {exc}", case, impl["xml"][:400], region=None)
                 continue
             if got != mod["written"]:
-                chk.disagree("JUnit file (testcase, #failure, #skipped, #error) vs Model_C16 written test cases", case, got, mod["written"])
+                chk.disagree("JUnit file (testcase, failure elements, #skipped, #error) vs Model_C16 written test cases", case, got, mod["written"])
+            # oracle (theorem C16_junit_failure_is_reported on the file): every FAILURE-status scenario before the end shows as a failure
+            by_name = {name: fails for name, fails, _s, _e in got}
+            seen_finish = False
+            for e in h:
+                if e[0] == "finish":
+                    seen_finish = True
+                if e[0] == "scenario" and e[2] == "StFailure" and not seen_finish and not by_name.get(LABELS[e[1]]):
+                    chk.fail(f"a FAILURE scenario of {LABELS[e[1]]!r} has no failure element in junit.xml", case, got, region=None)
         elif mod.get("written") is not None or impl["xml"]:
             chk.disagree("JUnit file written without EngineFinished", case, impl["xml"][:100], mod.get("written"))
-    chk.stages["junit_state_machine"] = {"histories": len(hs), "corpus": len(corpus), "keyerror_crashes_inside_region": crashes}
+    chk.stages["junit_state_machine"] = {"histories": len(hs), "corpus": len(corpus), "keyerror_crashes": crashes, "histories_the_old_handler_crashed_on": rediscovered}
 
 
 # ----------------------------------------------------------------------------------------
@@ -1033,7 +1062,7 @@ def rand_chistory(rng):
         ints = []
         for _ in range(rng.choice([0, 1, 2, 4])):
             no += 1
-            ints.append({"id": no, "userinfo": rng.random() < 0.15, "response": rng.random() < 0.85, "codec_known": rng.random() < 0.88})
+            ints.append({"id": no, "userinfo": rng.random() < 0.15, "response": rng.random() < 0.85, "codec": rng.choice(["ok"] * 8 + ["unknown", "unknown", "raises"])})
         h.append(ints)
     return h
 
@@ -1044,7 +1073,7 @@ def c_chistory(h):
         if e is None:
             evs.append("COther")
         else:
-            evs.append("CScenario " + clist(["{| i_id := %d; i_userinfo := %s; i_response := %s; i_codec_known := %s |}" % (i["id"], cbool(i["userinfo"]), cbool(i["response"]), cbool(i["codec_known"])) for i in e], "inter"))
+            evs.append("CScenario " + clist(["{| i_id := %d; i_userinfo := %s; i_response := %s; i_codec := %s |}" % (i["id"], cbool(i["userinfo"]), cbool(i["response"]), {"ok": "CodecOk", "unknown": "CodecUnknown", "raises": "CodecRaises"}[i["codec"]]) for i in e], "inter"))
     return clist(evs, "cevent")
 
 
@@ -1073,7 +1102,7 @@ def run_cassette_thread(fmt, sanitize, preserve, h):
             inters = []
             for i in e:
                 inters.append({"id": f"i{i['id']}", "uri": f"http://{'u:p@' if i['userinfo'] else ''}127.0.0.1/x", "method": "GET", "req_headers": {"A": ["b"]}, "req_body": None, "meta": "fuzzing", "checks": [],
-                               "response": None if not i["response"] else {"status": 200, "message": "OK", "headers": {"content-type": ["text/plain"]}, "content": b"x", "encoding": "utf-8" if i["codec_known"] else "bogus", "http_version": "1.1"}})
+                               "response": None if not i["response"] else {"status": 200, "message": "OK", "headers": {"content-type": ["text/plain"]}, "content": b"x", "encoding": {"ok": "utf-8", "unknown": "bogus", "raises": "undefined"}[i["codec"]], "http_version": "1.1"}})
             rec, _ = make_recorder(inters)
             w.handle_event(ctx, events.ScenarioFinished(id=uuid.uuid4(), phase=PhaseName.FUZZING, suite_id=uuid.uuid4(), label="GET /x", status=Status.SUCCESS, recorder=rec, elapsed_time=0.1, skip_reason=None, is_final=False))
         w.shutdown(ctx)
@@ -1120,7 +1149,7 @@ def stage_cassette_thread(chk, n):
             continue
         delivered = [f"i{k}" for k in m_deliv]
         if end != "Closed" or (fmt == "VCR" and ids != [(d, True) for d in delivered]) or (fmt == "HAR" and ids != len(delivered)):
-            region = "har_userinfo_sanitized" if fmt == "HAR" else "unknown_codec"
+            region = None if fmt == "HAR" else "codec_decode_raises"
             lost[region] = lost.get(region, 0) + 1
             chk.fail(f"{fmt} writer thread died ({died}): delivered exchanges are missing from the file", case, {"written": ids, "delivered": delivered}, region=region)
     chk.stages["cassette_thread"] = {"histories": len(cases), "histories_with_lost_exchanges_inside_regions": lost}
@@ -1143,6 +1172,7 @@ def run_cli(raw, responder, extra, userinfo=""):
     from schemathesis.engine import events as ev_mod
 
     delivered = []
+    scenarios = []
 
     class Capture(EventHandler):
         def __init__(self, *a, **k):
@@ -1150,6 +1180,7 @@ def run_cli(raw, responder, extra, userinfo=""):
 
         def handle_event(self, ctx, event):
             if isinstance(event, ev_mod.ScenarioFinished):
+                scenarios.append((event.recorder.label, event.status.name))
                 for cid, inter in event.recorder.interactions.items():
                     delivered.append((cid, inter))
 
@@ -1189,6 +1220,7 @@ def run_cli(raw, responder, extra, userinfo=""):
             out[name] = open(p, encoding="utf8", newline="").read() if os.path.exists(p) else None
         out["received"] = [r for r in rec.take() if not r["target"].startswith("/openapi.json")]
         out["delivered"] = delivered
+        out["scenarios"] = scenarios
         out["writer_died"] = died
     finally:
         threading.excepthook = saved_hook
@@ -1219,9 +1251,21 @@ def nasty_responder(rng_seed):
     return responder
 
 
-def check_cli_artifacts(chk, name, out, preserve, region_hint=None):
+def check_cli_artifacts(chk, name, out, preserve, region_hint=None, sanitized=False):
     """Oracle over the complete files of one real run."""
-    import yaml  # noqa: F401
+    from schemathesis.core.output.sanitization import sanitize_url
+
+    from schemathesis.core.output.sanitization import sanitize_value
+
+    def shown(uri):
+        return sanitize_url(uri) if sanitized else uri
+
+    def shown_headers(headers):
+        if not sanitized:
+            return headers
+        copy_ = {k: list(v) for k, v in headers.items()}
+        sanitize_value(copy_)
+        return copy_
 
     case = {"scenario": name, "preserve_bytes": preserve}
     delivered = out["delivered"]
@@ -1233,8 +1277,8 @@ def check_cli_artifacts(chk, name, out, preserve, region_hint=None):
         ok = False
         chk.fail(f"st run [{name}]: {what}", case, detail, region=region or region_hint)
 
-    if out["exception"] is not None:
-        bad(f"the run aborted with {out['exception']}", out["console"][-600:])
+    if out["exception"] is not None or "Internal Error" in out["console"]:
+        bad(f"the run aborted with {out['exception']} (Internal Error)", out["console"][-600:])
     if out["writer_died"]:
         bad(f"a cassette writer thread died: {out['writer_died']}")
     # JUnit
@@ -1242,6 +1286,12 @@ def check_cli_artifacts(chk, name, out, preserve, region_hint=None):
         root = ET.fromstring(out["junit.xml"] or "")
         if root.find(".//testcase") is None and ids:
             bad("JUnit report has no test case")
+        failed = {tc.get("name") for tc in root.iter("testcase") if tc.find("failure") is not None}
+        for label, status in out["scenarios"]:
+            if status == "FAILURE" and label not in failed:
+                bad(f"scenario {label!r} finished with FAILURE but its JUnit test case has no failure element")
+        if any(status == "FAILURE" for _, status in out["scenarios"]) and out["exit"] != 1:
+            bad(f"a scenario failed but the exit code is {out['exit']}")
     except ET.ParseError as exc:
         bad(f"JUnit report is not XML ({exc})", (out["junit.xml"] or "")[:200])
     # VCR
@@ -1261,9 +1311,9 @@ def check_cli_artifacts(chk, name, out, preserve, region_hint=None):
             for e, (cid, inter) in zip(entries, delivered):
                 req, resp = inter.request, inter.response
                 diffs = []
-                if e["request"]["uri"] != req.uri or e["request"]["method"] != req.method:
+                if e["request"]["uri"] != shown(req.uri) or e["request"]["method"] != req.method:
                     diffs.append(("request line", e["request"]["uri"], req.uri))
-                if (e["request"]["headers"] or {}) != req.headers:
+                if (e["request"]["headers"] or {}) != shown_headers(req.headers):
                     diffs.append(("request headers", e["request"]["headers"], req.headers))
                 body = e["request"].get("body")
                 wire = by_case.get(cid)
@@ -1281,13 +1331,13 @@ def check_cli_artifacts(chk, name, out, preserve, region_hint=None):
                 else:
                     if e["response"]["status"]["code"] != str(resp.status_code) or e["response"]["status"]["message"] != resp.message:
                         diffs.append(("status", e["response"]["status"], resp.status_code))
-                    if (e["response"]["headers"] or {}) != resp.headers:
+                    if (e["response"]["headers"] or {}) != shown_headers(resp.headers):
                         diffs.append(("response headers", e["response"]["headers"], resp.headers))
                     rb = e["response"].get("body")
                     if preserve:
                         if (b"" if rb is None else b64(rb["base64_string"])) != resp.content:
                             diffs.append(("response body bytes", rb, resp.content))
-                    elif rb is None or rb["string"] != resp.content.decode(resp.encoding or "utf8", "replace"):
+                    elif rb is None or rb["string"] != resp.content.decode(effective_encoding({"encoding": resp.encoding, "content": resp.content}, False), "replace"):
                         diffs.append(("response body text", rb, resp.content))
                 if diffs:
                     bad(f"VCR entry {cid} differs from the traffic", [(a, repr(b)[:150], repr(c)[:150]) for a, b, c in diffs])
@@ -1304,10 +1354,10 @@ def check_cli_artifacts(chk, name, out, preserve, region_hint=None):
         else:
             for e, (cid, inter) in zip(entries, delivered):
                 req, resp = inter.request, inter.response
-                if e["request"]["url"] != req.uri or e["request"]["method"] != req.method.upper():
+                if e["request"]["url"] != shown(req.uri) or e["request"]["method"] != req.method.upper():
                     bad(f"HAR entry {cid}: request line differs", [e["request"]["url"], req.uri])
                     break
-                if [(h["name"], h["value"]) for h in e["request"]["headers"]] != [(k, v[0]) for k, v in req.headers.items()]:
+                if [(h["name"], h["value"]) for h in e["request"]["headers"]] != [(k, v[0]) for k, v in shown_headers(req.headers).items()]:
                     bad(f"HAR entry {cid}: request headers differ", [e["request"]["headers"], req.headers])
                     break
                 if [(q["name"], q["value"]) for q in e["request"]["queryString"]] != parse_qsl(urlsplit(req.uri).query, keep_blank_values=True):
@@ -1325,7 +1375,7 @@ def check_cli_artifacts(chk, name, out, preserve, region_hint=None):
                     if got != (sent if preserve else sent.decode("utf-8", "replace")) or (preserve and wire is not None and got != wire["body"]):
                         bad(f"HAR entry {cid} ({req.method} {req.uri}): postData differs from the body that was sent", [pd, sent[:80]])
                         break
-                if resp is not None and [(h["name"], h["value"]) for h in e["response"]["headers"]] != [(k, v[0]) for k, v in resp.headers.items()]:
+                if resp is not None and [(h["name"], h["value"]) for h in e["response"]["headers"]] != [(k, v[0]) for k, v in shown_headers(resp.headers).items()]:
                     bad(f"HAR entry {cid}: response headers differ", [e["response"]["headers"], resp.headers])
                     break
                 if resp is None and canon_har_response(e["response"]) is not None:
@@ -1363,28 +1413,54 @@ PATHS_LINKS = {"/u": {"get": {"operationId": "getU", "responses": {"200": {"desc
                       "post": {"operationId": "postU", "responses": {"201": {"description": "ok", "links": {"get": {"operationId": "getU"}}}}}}}
 
 
-def cli_witness(kind):
-    """Canonical real-run witnesses of the listed findings. Returns (fails: bool, detail)."""
-    ok_json = lambda item: (200, [("Content-Type", "application/json")], b"{}")  # noqa: E731
+OK_JSON = lambda item: (200, [("Content-Type", "application/json")], b"{}")  # noqa: E731
+TWO_GETS = {"/u": {"get": {"responses": {"200": {"description": "ok"}}}}, "/v": {"get": {"responses": {"200": {"description": "ok"}}}}}
+FEW = ["--max-examples", "2", "--phases", "fuzzing", "--checks", "not_a_server_error"]
+
+
+_RUNS: dict = {}
+
+
+def run_named(kind):
+    """The real runs behind the listed findings (known and fixed), one per check. Returns (out, sanitized)."""
+    if kind not in _RUNS:
+        _RUNS[kind] = _run_named(kind)
+    return _RUNS[kind]
+
+
+def _run_named(kind):
     if kind == "odata_path_quote":
-        out = run_cli(cli_schema(PATHS_ODATA), ok_json, ["--max-examples", "2", "--phases", "fuzzing", "--checks", "not_a_server_error"])
-        y = yaml_load(out["vcr.yaml"] or "")
-        return y[0] != "ok" and bool(out["delivered"]), y
+        return run_cli(cli_schema(PATHS_ODATA), OK_JSON, FEW), False
     if kind == "junit_rediscovered":
         responder = lambda item: (500, [("Content-Type", "application/json")], b"{}") if item["method"] == "GET" else (201, [("Content-Type", "application/json")], b"{}")  # noqa: E731
-        out = run_cli(cli_schema(PATHS_LINKS), responder, ["--max-examples", "5", "--phases", "fuzzing,stateful", "--checks", "not_a_server_error"])
-        return (out["exception"] or "").startswith("KeyError") and not (out["junit.xml"] or "").strip(), out["exception"]
+        return run_cli(cli_schema(PATHS_LINKS), responder, ["--max-examples", "5", "--phases", "fuzzing,stateful", "--checks", "not_a_server_error"]), False
     if kind == "har_userinfo":
-        out = run_cli(cli_schema({"/u": {"get": {"responses": {"200": {"description": "ok"}}}}}), ok_json, ["--max-examples", "2", "--phases", "fuzzing", "--checks", "not_a_server_error"], userinfo="user:pw@")
-        return bool(out["writer_died"]) and not (out["har.json"] or "").strip() and bool(out["delivered"]), out["writer_died"]
+        return run_cli(cli_schema(TWO_GETS), OK_JSON, FEW, userinfo="user:pw@"), True
     if kind == "unknown_charset":
-        responder = lambda item: (200, [("Content-Type", "text/plain; charset=bogus")], b"hello")  # noqa: E731
-        out = run_cli(cli_schema({"/u": {"get": {"responses": {"200": {"description": "ok"}}}}, "/v": {"get": {"responses": {"200": {"description": "ok"}}}}}), responder,
-                      ["--max-examples", "2", "--phases", "fuzzing", "--checks", "not_a_server_error"])
-        y = yaml_load(out["vcr.yaml"] or "")
-        n = len((y[1].get("http_interactions") or [])) if y[0] == "ok" else -1
-        return bool(out["writer_died"]) and n < len(out["delivered"]), {"died": out["writer_died"], "entries": n, "delivered": len(out["delivered"])}
+        return run_cli(cli_schema(TWO_GETS), lambda item: (200, [("Content-Type", "text/plain; charset=bogus")], b"h\xe9llo"), FEW), False
+    if kind == "charset_undefined":
+        return run_cli(cli_schema(TWO_GETS), lambda item: (200, [("Content-Type", "text/plain; charset=undefined")], b"hello"), FEW), False
     raise ValueError(kind)
+
+
+class _Collect:
+    """Stands in for a Check when a witness is replayed: only collects what the oracle objects to."""
+
+    def __init__(self):
+        self.problems = []
+
+    def fail(self, what, case=None, detail=None, region=None):
+        self.problems.append(what)
+
+
+def cli_witness(kind):
+    """Replays the real-run witness of a listed finding. Returns (the property fails on it: bool, detail)."""
+    out, sanitized = run_named(kind)
+    col = _Collect()
+    if not out["delivered"]:
+        return True, "no exchange delivered"
+    check_cli_artifacts(col, kind, out, False, sanitized=sanitized)
+    return bool(col.problems), col.problems[:3]
 
 
 def stage_cli(chk, quick):
@@ -1409,6 +1485,30 @@ def stage_cli(chk, quick):
             chk.disagree("st run delivered no exchange to the reporters (the oracle has nothing to look at)", {"scenario": name}, out["console"][-800:], None)
             continue
         if check_cli_artifacts(chk, name, out, preserve):
+            stats["clean"] += 1
+    # the three repaired behaviours, as ordinary oracle runs (with their non-vacuity conditions)
+    for kind in ("junit_rediscovered", "har_userinfo", "unknown_charset"):
+        out, sanitized = run_named(kind)
+        stats["runs"] += 1
+        stats["exchanges"] += len(out["delivered"])
+        chk.seen({"cli": kind, "exchanges": len(out["delivered"])}, True)
+        chk.count("cli:" + kind)
+        if kind == "junit_rediscovered":
+            labels = [label for label, status in out["scenarios"] if status == "FAILURE"]
+            if "Stateful tests" not in labels or len(set(labels)) < 2:
+                chk.disagree("the rediscovery run did not produce a FAILURE scenario under two labels (nothing to look at)", {"scenario": kind}, out["scenarios"][-6:], None)
+                continue
+            root = ET.fromstring(out["junit.xml"] or "<x/>")
+            msgs = [f.get("message") or "" for tc in root.iter("testcase") if tc.get("name") == "Stateful tests" for f in tc.findall("failure")]
+            stats["rediscovered_failure_elements"] = len(msgs)
+        elif not out["delivered"]:
+            chk.disagree("st run delivered no exchange to the reporters (the oracle has nothing to look at)", {"scenario": kind}, out["console"][-800:], None)
+            continue
+        if kind == "har_userinfo" and not all("@" in inter.request.uri for _, inter in out["delivered"]):
+            chk.disagree("the userinfo run recorded URLs without userinfo (nothing to look at)", {"scenario": kind}, [i.request.uri for _, i in out["delivered"]][:3], None)
+        if kind == "unknown_charset" and not all(inter.response is not None and inter.response.encoding == "bogus" for _, inter in out["delivered"]):
+            chk.disagree("the bogus-charset run recorded no response with encoding bogus (nothing to look at)", {"scenario": kind}, None, None)
+        if check_cli_artifacts(chk, kind, out, False, sanitized=sanitized):
             stats["clean"] += 1
     chk.stages["oracle_search_cli_reports"] = stats
 
